@@ -90,7 +90,10 @@ Proof. vm_compute. reflexivity. Qed.
 Example accepts_sq :      (* varargs, syntax-quote with unquote-splicing (Explode / Squash / Vectorize) *)
   check_fn code_sq {| f_varargs := true; f_nargs := 1 |} false 2 annot_sq = true.
 Proof. vm_compute. reflexivity. Qed.
-(* ---- and rejects the body of known finding func-decl-returns (two values at Return) ---- *)
+Example accepts_assign :  (* assignment to a quoted target used as the function's value *)
+  check_fn code_sq0 {| f_varargs := false; f_nargs := 0 |} false 0 annot_sq0 = true.
+Proof. vm_compute. reflexivity. Qed.
+(* ---- and rejects the body FuncBuilder emitted for a body-less func before fix 78df25e (two values at Return) ---- *)
 Example rejects_e5 :
   check_fn code_e5 {| f_varargs := false; f_nargs := 0 |} false 0 annot_e5 = false.
 Proof. vm_compute. reflexivity. Qed.
